@@ -81,6 +81,12 @@ func Instrs(b []byte) []Instr {
 		pos := len(b) - r.Len()
 		op, _ := r.ReadByte()
 		name := wasm.InstructionName(op)
+		switch op {
+		case wasm.OpcodeTailCallReturnCall:
+			name = "return_call"
+		case wasm.OpcodeTailCallReturnCallIndirect:
+			name = "return_call_indirect"
+		}
 		imm := ""
 		switch op {
 		case wasm.OpcodeBlock, wasm.OpcodeLoop, wasm.OpcodeIf:
